@@ -163,8 +163,35 @@ fn engine_limit(side: Side, second: u8) -> impl Fn() {
             return;
         }
         r.w.next_block(15);
+        if second == 5 {
+            // another trader moves the price in alice's favour: for the next 15 minutes the spot
+            // value of her position exceeds its TWAP value
+            let t = r.step(Op::Open { who: BOB, side: side.clone(), margin: Uint128::new(50 * d), lev: Uint128::new(2 * d), limit: Uint128::zero(), funds: None });
+            if !t.tx.ok {
+                return;
+            }
+            r.w.next_block(15);
+        }
         symrt::set_full(true);
         match second {
+            5 => {
+                // an opposite order worth less than the position's SPOT value only reduces it, and a
+                // reducing trade carries the caller's limit
+                let pos = r.w.position(0, ALICE).unwrap();
+                let q = r.w.output_amount(0, if side == Side::Buy { Direction::AddToAmm } else { Direction::RemoveFromAmm }, pos.size.value).ok();
+                let m = amount("m2", d, false, 46);
+                let lev = Uint128::new(2 * d);
+                let t = r.step(Op::Open { who: ALICE, side: opp(&side), margin: m, lev, limit: lim, funds: None });
+                let ms = t.tx.msgs_to("vamm");
+                if let (Some(q), Some(first)) = (q, ms.first()) {
+                    let n = s(m).mul(s(lev)).div_e(c(d));
+                    let is_reduce_msg = first.get("swap_input").is_some();
+                    prove_d("C17/order-below-spot-value-takes-the-reducing-arm", n.lt(s(q)).implies(Cond::from_bool(is_reduce_msg)), "reduce-after-move".to_string());
+                    if is_reduce_msg {
+                        check(&t, "reduce-after-move", true);
+                    }
+                }
+            }
             1 => {
                 let m = amount("m2", d, false, 10);
                 let t = r.step(Op::Open { who: ALICE, side: side.clone(), margin: m, lev: Uint128::new(2 * d), limit: lim, funds: None });
@@ -263,7 +290,7 @@ pub fn scenarios(_seed: u64) -> Vec<Scenario> {
     }
     let d2 = "engine: OpenPosition (fresh / increase / reduce) and whole ClosePosition with a symbolic limit; the limit inside the delivered vAMM sub-message equals the caller's";
     for (side, sn) in [(Side::Buy, "long"), (Side::Sell, "short")] {
-        for (k, kn) in [(0u8, "fresh"), (1, "increase"), (2, "reduce"), (3, "close"), (4, "close.over-band.ratio1")] {
+        for (k, kn) in [(0u8, "fresh"), (1, "increase"), (2, "reduce"), (3, "close"), (4, "close.over-band.ratio1"), (5, "reduce.after-move")] {
             v.push(sc("C17", Tier::Quick, &format!("c17.engine.{}.{}", kn, sn), d2, 400, 120, engine_limit(side.clone(), k)));
         }
         for (rn, ru) in [("shallow", 5u128), ("deep", 45)] {
